@@ -537,6 +537,107 @@ func c08Case(t *core.T, big bool) {
 		fail("reimported-wallet-differs-from-ledger", strings.Join(lines, " | "))
 		return
 	}
+	// life goes on for the re-imported wallet: blocks that pay and spend it, reorganisations that
+	// reach below the re-import, and (in a third of the cases) a second removal and re-import in
+	// the same process; after every step all wallets == ledger and the follower keeps following
+	if !big {
+		afterLedger := func(what string) bool {
+			if !wd.Settle() {
+				if ok, sum, full := c20Structural(); ok {
+					w := wd.Witness()
+					w["goroutines"], w["dump"] = sum, full
+					t.Violate("follower-stalled-after-reimport", what+": the follower does not consume the delivered block; structural deadlock", w)
+				} else {
+					t.Inconclusive("handler not idle " + what)
+				}
+				return false
+			}
+			t.Eval(1)
+			if d := wd.CheckLedger(sim.CompareOpts{Histories: true}); len(d) > 0 {
+				var lines []string
+				for id, dd := range d {
+					for _, x := range dd {
+						lines = append(lines, id+": "+x)
+					}
+				}
+				sort.Strings(lines)
+				fail("ledger-mismatch-after-reimport", what+": "+strings.Join(lines, " | "))
+				return false
+			}
+			return true
+		}
+		cycles := 1
+		if t.R.Chance(35) {
+			cycles = 2
+		}
+		for c := 0; c < cycles; c++ {
+			for i := 0; i < t.R.Range(1, 3); i++ {
+				b, err := wd.Extend(t.R.Range(1, 4))
+				if err != nil {
+					t.Fatalf("extend: %v", err)
+				}
+				wd.W.Deliver(b)
+				if !afterLedger("a block after the re-import") {
+					return
+				}
+			}
+			if c == 0 && cycles == 2 {
+				// second removal + re-import without a restart in between
+				t.Eval(1)
+				if err := wd.W.W.RemoveWallet(victim.ID, victim.Pass); err != nil {
+					fail("second-removal-refused", err.Error())
+					return
+				}
+				wd.Keys = survivors
+				if !wd.W.WorkerIdle(120 * time.Second) {
+					t.Inconclusive("second removal did not finish")
+					return
+				}
+				sum, err := wd.W.W.ImportWalletWithMnemonic(&keystore.WalletParams{Mnemonic: victim.Mnemonic, PrivatePassphrase: []byte(victim.Pass), ExternalIndex: hint, AddressGapLimit: 20})
+				if err != nil || sum.WalletID != victim.ID {
+					fail("reimport-failed", fmt.Sprintf("second re-import in the same process: %v", err))
+					return
+				}
+				if !wd.W.WorkerIdle(120 * time.Second) {
+					t.Inconclusive("second re-import did not finish")
+					return
+				}
+				wd.Keys = allKeys
+				wd.Logf("(removed and re-imported %s again, same process)", victim.ID[:8])
+				t.Count("second_removal_and_reimport_cycles", 1)
+				if !afterLedger("the second re-import") {
+					return
+				}
+			}
+			if h := int(wd.N.Height()); h > 4 {
+				d := t.R.Range(1, minInt(5, h-2))
+				nb, _, err := wd.Fork(d, d+t.R.Range(0, 1), 2)
+				if err != nil {
+					t.Fatalf("fork: %v", err)
+				}
+				if nb != nil {
+					wd.W.Deliver(nb)
+					wd.Logf("(reorg after the re-import)")
+					t.Count("reorgs_after_reimport", 1)
+					if !afterLedger("a reorganisation after the re-import") {
+						return
+					}
+					if h2, err := wd.W.W.SyncedTo(); err != nil || h2 != wd.N.Height() {
+						b, err := wd.Extend(0)
+						if err != nil {
+							t.Fatalf("extend: %v", err)
+						}
+						wd.W.Deliver(b)
+						wd.Settle()
+						if h3, _ := wd.W.W.SyncedTo(); h3 != wd.N.Height() {
+							fail("wallet-stops-following-after-reimport", fmt.Sprintf("SyncedTo %d, node at %d after a reorganisation that follows the re-import", h3, wd.N.Height()))
+							return
+						}
+					}
+				}
+			}
+		}
+	}
 	t.Count("removal_rounds", rounds)
 	t.Count("restarts_during_removal", restarted)
 	t.Count("kv_scanned", nkv)
